@@ -61,7 +61,8 @@ func filter(only bool, opt *Option, profile string) (string, error) {
 	if opt.IsInline() {
 		profile = strings.ReplaceAll(profile, opt.Raw, "")
 	} else {
-		regRemoveParagraph := regexp.MustCompile(`(?s)` + opt.Raw + `\n.*?\n\n`)
+		// The directive is a whole line: do not match it inside another line (e.g. after a rule)
+		regRemoveParagraph := regexp.MustCompile(`(?sm)^` + regexp.QuoteMeta(opt.Raw) + `\n.*?\n\n`)
 		profile = regRemoveParagraph.ReplaceAllString(profile, "")
 	}
 	return profile, nil
